@@ -119,8 +119,18 @@ def combos(chk, tier):
     (d / "reassign.krome").write_text("@var:tscale = Tgas/1d2\n@var:fcorr = 1d0 + 0.5d0*tscale\n@var:tscale = Tgas/3d2\n"
                                       "@format:idx,R,R,R,P,P,P,P,Tmin,Tmax,rate\n1,H,E,,H+,E,E,,NONE,NONE,1.0d-10*fcorr\n"
                                       "2,H+,E,,H,,,,NONE,NONE,3.0d-12*tscale\n")
+    # user variables whose right-hand sides call Fortran's double-precision intrinsics
+    (d / "intrinsics.krome").write_text("@var:kboltz = dexp(-1.578d5/Tgas)\n@var:sq = dsqrt(Tgas)*1d-2\n@var:lg = dlog10(Tgas) + dlog(Tgas)\n"
+                                        "@var:mx = dabs(Tgas - 3d2)\n"
+                                        "@format:idx,R,R,R,P,P,P,P,Tmin,Tmax,rate\n1,H,E,,H+,E,E,,NONE,NONE,1.0d-10*kboltz\n"
+                                        "2,H+,E,,H,,,,NONE,NONE,3.0d-12*dexp(-1d0/Tgas)*dsqrt(Tgas)/dlog(mx + lg + sq)\n")
+    (d / "dexp-var.krome").write_text("@var:kboltz = dexp(-1.578d5/Tgas)\n"
+                                      "@format:idx,R,R,R,P,P,P,P,Tmin,Tmax,rate\n1,H,E,,H+,E,E,,NONE,NONE,1.0d-10*kboltz\n"
+                                      "2,H+,E,,H,,,,NONE,NONE,3.0d-12*dexp(-1d0/Tgas)\n")
     KE = dict(elements=["E", "H"], pseudo_elements=["g"])
     out.append(("krome-var-reassigned+nograin", [d / "reassign.krome"], ["krome"], "", {}, KE))
+    out.append(("krome-dexp-in-var+nograin", [d / "dexp-var.krome"], ["krome"], "", {}, KE))
+    out.append(("krome-d-intrinsics+nograin", [d / "intrinsics.krome"], ["krome"], "", {}, KE))
     out.append(("krome-late-directives+nograin", [d / "late.krome"], ["krome"], "", {}, KE))
     out.append(("krome-several-commons+nograin", [d / "commons.krome"], ["krome"], "", {}, KE))
     out.append(("krome-two-files+nograin", [d / "first.krome", d / "second.krome"], ["krome", "krome"], "", {}, KE))
